@@ -60,15 +60,15 @@ Proof.
   - (* if *)
     destruct (decl_stmt vis s) as [okd vis1] eqn:Ed. destruct okd; [|cbn in D; discriminate].
     pose proof (rep_push _ _ R) as R1.
-    destruct (IHs (push c0) vis vis2 R1 M) as (E1 & E2 & E3); [rewrite Ed; reflexivity|]. rewrite Ed in E2, E3. cbn [fst snd] in E2, E3.
-    rewrite <- (bound_meq vis vis2 (Some c) M), <- (ct_expr_bound (push c0) vis (Some c) R1).
-    assert (Hsnd : snd (match f with Some f' => (fst (decl_stmt vis1 f'), vis) | None => (true, vis) end) = vis) by (destruct f; reflexivity).
+    destruct (IHs (push c0) vis vis2 R1 M) as (E1 & _ & _); [rewrite Ed; reflexivity|].
+    rewrite <- (bound_meq vis vis2 (Some c) M), <- (ct_expr_bound c0 vis (Some c) R).
+    assert (Hsnd : snd (match f with Some f' => (fst (decl_stmt vis f'), vis) | None => (true, vis) end) = vis) by (destruct f; reflexivity).
     rewrite Hsnd. clear Hsnd.
-    destruct (ct_expr (push c0) (Some c)) eqn:Ece; cbn [pok andb fst snd]; try (split; [reflexivity|split; [exact M|discriminate]]).
-    destruct (ct_stmt (push c0) s) as [r c2] eqn:Ect. destruct (use_stmt vis2 s) as [oku visu] eqn:Eu. cbn [fst snd] in *.
-    destruct r; cbn [pok] in E1; subst oku; cbn [andb fst snd pok]; try (split; [reflexivity|split; [exact M|discriminate]]).
+    destruct (ct_expr c0 (Some c)) eqn:Ece; cbn [pok andb fst snd]; try (split; [reflexivity|split; [exact M|discriminate]]).
+    destruct (ct_stmt (push c0) s) as [r c2] eqn:Ect. cbn [fst snd] in *. rewrite <- E1.
+    destruct r; cbn [andb fst snd pok]; try (split; [reflexivity|split; [exact M|discriminate]]).
     destruct f as [f'|]; cbn [fst snd].
-    + cbn in D. destruct (H f' eq_refl c2 vis1 visu (E3 eq_refl) E2 D) as (F1 & _ & _).
+    + cbn in D. destruct (H f' eq_refl (push c0) vis vis2 R1 M D) as (F1 & _ & _).
       split; [exact F1|]. split; [exact M|intros _; exact R].
     + split; [reflexivity|]. split; [exact M|intros _; exact R].
   - (* for *)
